@@ -484,6 +484,81 @@ impl<'a> Outbound<'a> {
     }
 }
 
+#[cfg(feature = "verif-hooks")]
+impl Outbound<'_> {
+    /// Feed every field that can influence future behaviour to `sink`.
+    pub(super) fn verif_fingerprint(&self, sink: &mut dyn FnMut(&[u8])) {
+        fn state(sink: &mut dyn FnMut(&[u8]), state: SendState) {
+            match state {
+                SendState::Write { written } => {
+                    sink(&[0]);
+                    sink(&(written as u64).to_le_bytes());
+                }
+                SendState::Flush => sink(&[1]),
+                SendState::Sent => sink(&[2]),
+            }
+        }
+        sink(&(self.buf.len() as u64).to_le_bytes());
+        sink(&(self.used as u64).to_le_bytes());
+        sink(&[self.pending_control.len() as u8]);
+        for entry in &self.pending_control {
+            match entry.action {
+                ControlAction::PubAck { packet_id, reason } => {
+                    sink(&[1, u8::from(&reason)]);
+                    sink(&packet_id.to_le_bytes());
+                }
+                ControlAction::PubRec { packet_id, reason } => {
+                    sink(&[2, u8::from(&reason)]);
+                    sink(&packet_id.to_le_bytes());
+                }
+                ControlAction::PubComp { packet_id, reason } => {
+                    sink(&[3, u8::from(&reason)]);
+                    sink(&packet_id.to_le_bytes());
+                }
+                ControlAction::PingReq => sink(&[4]),
+            }
+            state(sink, entry.state);
+        }
+        sink(&[self.retained.len() as u8]);
+        for entry in &self.retained {
+            sink(&entry.packet_id.to_le_bytes());
+            sink(&(entry.offset as u64).to_le_bytes());
+            sink(&(entry.len as u64).to_le_bytes());
+            state(sink, entry.state);
+            sink(&self.buf[entry.offset..entry.offset + entry.len]);
+        }
+        sink(&[self.pending_release.len() as u8]);
+        for entry in &self.pending_release {
+            sink(&entry.packet_id.to_le_bytes());
+            sink(&[u8::from(&entry.reason)]);
+            state(sink, entry.state);
+        }
+    }
+
+    /// Overwrite every arena byte that is not covered by a retained entry.
+    pub(super) fn verif_poison_dead_bytes(&mut self, value: u8) {
+        for index in 0..self.buf.len() {
+            let live = self
+                .retained
+                .iter()
+                .any(|entry| index >= entry.offset && index < entry.offset + entry.len);
+            if !live {
+                self.buf[index] = value;
+            }
+        }
+    }
+
+    /// `(retained, pending_release, pending_control, used)` lengths.
+    pub(super) fn verif_counts(&self) -> (usize, usize, usize, usize) {
+        (
+            self.retained.len(),
+            self.pending_release.len(),
+            self.pending_control.len(),
+            self.used,
+        )
+    }
+}
+
 pub(super) fn serialize_control_packet<E>(
     buffer: &mut [u8],
     packet: ControlAction,
